@@ -156,18 +156,20 @@ func (d *Decimal) setString(c *Context, s string) (Condition, error) {
 		return 0, nil
 	}
 
-	exps := make([]int64, 0, 2)
+	// The exponent of the result is the written exponent minus the number of
+	// fraction digits; only this sum has to be within the exponent limits
+	// ("0.1E+100001" is 1E+100000).
+	var exp10 int64
 	if i := strings.IndexByte(s, 'e'); i >= 0 {
 		exp, err := strconv.ParseInt(s[i+1:], 10, 32)
 		if err != nil {
 			return 0, fmt.Errorf("parse exponent: %s: %w", s[i+1:], err)
 		}
-		exps = append(exps, exp)
+		exp10 = exp
 		s = s[:i]
 	}
 	if i := strings.IndexByte(s, '.'); i >= 0 {
-		exp := int64(len(s) - i - 1)
-		exps = append(exps, -exp)
+		exp10 -= int64(len(s) - i - 1)
 		s = s[:i] + s[i+1:]
 	}
 	// The mantissa must consist of digits only: BigInt.SetString would also
@@ -180,7 +182,7 @@ func (d *Decimal) setString(c *Context, s string) (Condition, error) {
 	}
 	// No parse errors, can now flag as finite.
 	d.Form = Finite
-	return c.goError(d.setExponent(c, unknownNumDigits, 0, exps...))
+	return c.goError(d.setExponent(c, unknownNumDigits, 0, exp10))
 }
 
 // NewFromString creates a new decimal from s. It has no restrictions on
